@@ -89,6 +89,7 @@ Section Gen.
   Notation fits_tokens := (fits_tokens c u ok pyspace).
   Notation fits_attr := (fits_attr c u ok pyspace).
   Notation fits_text := (fits_text c u ok pyspace).
+  Notation derived_ok := (derived_ok c u ok).
 
   (* ---------------------------------------------------------------- encoded values *)
   Definition enc_p (fmt : option str) (p : prim) : wval :=
@@ -151,8 +152,25 @@ Section Gen.
 
   Definition g_prim (var : xvar) (x : value) : bitem :=
     BNode (v_qname var) [] [BData (enc (v_format var) x)].
+  (* xsi:type of a model instance of class k' held by the field var (EventGenerator.xsi_type) *)
+  Definition xsi_for (var : xvar) (k' : cls) : option qname :=
+    if existsb (ptype_eqb (TClass k')) (v_types var) then None
+    else match u_meta u k' with
+         | Some mk => real_xsi_type (v_qname var) (m_target_qname mk)
+         | None => None
+         end.
+  Definition xsi_attr_g (x : option qname) : list (qname * wval) :=
+    match x with Some ((_ :: _) as q) => [(XSI_TYPE, WP (PQName q))] | _ => [] end.
+  Definition add_xsi_g (x : option qname) (i : bitem) : bitem :=
+    match i with BNode q ats ks => BNode q (ats ++ xsi_attr_g x) ks | BData v => BData v end.
+  Lemma add_xsi_g_none i : add_xsi_g None i = i.
+  Proof. destruct i; [reflexivity|]. cbn [add_xsi_g xsi_attr_g]. rewrite app_nil_r. reflexivity. Qed.
+
   Definition g_item (rec : option qname -> value -> bitem) (var : xvar) (x : value) : bitem :=
-    match x with VObj _ _ => rec (Some (v_qname var)) x | _ => g_prim var x end.
+    match x with
+    | VObj k' _ => add_xsi_g (xsi_for var k') (rec (Some (v_qname var)) x)
+    | _ => g_prim var x
+    end.
   Definition g_wrap (var : xvar) (items : list bitem) : list bitem :=
     match v_wrapper_qname var with
     | Some ((_ :: _) as w) => [BNode w [] items]
@@ -676,6 +694,19 @@ Section Gen.
     rewrite Hn. reflexivity.
   Qed.
 
+  Lemma run_xsitype_derived f var kd k fs :
+    kind_elem var -> v_types var = [TClass kd] -> v_clazz var = Some kd -> v_nillable var = false ->
+    k <> kd -> is_subclass u k kd = true -> u_meta u k <> None ->
+    run c u ign (S f) (CXsiType (VObj k fs) var)
+    = run c u ign f (CDataclass (VObj k fs) (Some (v_qname var)) false (xsi_for var k)).
+  Proof.
+    intros [Hk [Ht [Hes Hw]]] Hty Hcl Hn Hne Hs Hmk. cbn [run]. rewrite Hw, Hk.
+    unfold xsi_type_of, xsi_for. rewrite Hty, Hcl. cbn [existsb ptype_eqb].
+    destruct (N.eqb_spec k kd) as [E|_]; [contradiction|]. cbn [orb].
+    unfold is_derived. rewrite Hs. cbn [orb].
+    destruct (u_meta u k) as [mk|]; [|congruence]. cbn [gbind]. rewrite Hn. reflexivity.
+  Qed.
+
   Lemma wf_elem_inv var : wf_elem var = true ->
     kind_elem var /\ var_common var = true
     /\ ((exists k, v_types var = [TClass k] /\ v_clazz var = Some k /\ v_tokens_factory var = None)
@@ -780,10 +811,51 @@ Section Gen.
 
   Lemma fits_item_class rec var k x :
     v_types var = [TClass k] -> fits_item rec var x = true ->
-    exists cl fs, x = VObj cl fs /\ rec k x = true.
+    exists cl' fs, x = VObj cl' fs
+      /\ ((cl' = k /\ rec k x = true) \/ (derived_ok var k cl' = true /\ rec cl' x = true)).
   Proof.
     intros Ht H. unfold Fits.fits_item, vtype in H. rewrite Ht in H.
-    destruct x; try discriminate H. eexists _, _. split; [reflexivity|exact H].
+    destruct x as [| | |cl' fs'| | |]; try discriminate H. exists cl', fs'. split; [reflexivity|].
+    destruct (N.eqb_spec cl' k) as [->|Hne]; [left; split; [reflexivity|exact H]|].
+    right. apply andb_true_iff in H. exact H.
+  Qed.
+
+  (* what derived_ok says *)
+  Lemma derived_ok_inv var kd k : derived_ok var kd k = true ->
+    k <> kd /\ is_subclass u k kd = true
+    /\ exists mk mkd t, u_meta u k = Some mk /\ u_meta u kd = Some mkd /\ m_target_qname mk = Some t /\ t <> []
+         /\ t <> v_qname var /\ m_target_qname mkd <> Some t
+         /\ sub_lookup u kd t = Some k /\ c_from_qname c t = None
+         /\ ok (PQName t) = true /\ qname_ok t = true.
+  Proof.
+    unfold derived_ok. intros H. peel H H2. peel H H1. apply negb_true_iff in H. apply N.eqb_neq in H.
+    split; [exact H|]. split; [exact H1|].
+    destruct (u_meta u k) as [mk|]; [|discriminate]. destruct (u_meta u kd) as [mkd|]; [|discriminate].
+    destruct (m_target_qname mk) as [[|ch t']|] eqn:Et; try discriminate.
+    peel H2 G6. peel H2 G5. peel H2 G4. peel H2 G3. peel H2 G2.
+    exists mk, mkd, (ch :: t'). split; [reflexivity|]. split; [reflexivity|]. split; [exact Et|]. split; [discriminate|].
+    split; [intros E; rewrite <- E, str_eqb_refl in H2; discriminate H2|].
+    split.
+    { intros E. rewrite E in G2. cbn [ostr_eqb opt_eqb] in G2. rewrite str_eqb_refl in G2. discriminate G2. }
+    split.
+    { destruct (sub_lookup u kd (ch :: t')) as [k'|]; [|discriminate]. apply N.eqb_eq in G3. subst k'. reflexivity. }
+    split; [destruct (c_from_qname c (ch :: t')); [discriminate|reflexivity]|]. split; assumption.
+  Qed.
+
+  (* the subclasses of a class reachable from a well-formed class are well-formed *)
+  Lemma wfr_sub cl m e v kd k :
+    wfr cl -> u_meta u cl = Some m -> In e (m_elements m) -> In v (snd e) -> v_clazz v = Some kd ->
+    u_meta u k <> None -> k <> kd -> is_subclass u k kd = true -> wfr k.
+  Proof.
+    intros [R [Hc Hin]] Hm He Hv Hk Hmk Hne Hs. exists R. split; [exact Hc|].
+    unfold closed_ok in Hc. rewrite forallb_forall in Hc. specialize (Hc cl Hin). rewrite Hm in Hc.
+    peel Hc H1. rewrite forallb_forall in H1. apply existsb_N_in. apply H1.
+    unfold class_children. apply in_flat_map. exists e. split; [exact He|].
+    apply in_flat_map. exists v. split; [exact Hv|]. rewrite Hk. right.
+    unfold strict_subclasses. apply filter_In. split.
+    - unfold u_meta in Hmk. destruct (assocN k (u_metas u)) as [mk|] eqn:Ea; [|congruence].
+      apply assocN_in in Ea. apply in_map_iff. exists (k, mk). split; [reflexivity|exact Ea].
+    - rewrite Hs, andb_true_r. apply negb_true_iff. apply N.eqb_neq. exact Hne.
   Qed.
 
   Lemma fits_tokens_inv var tf x t :
@@ -1239,12 +1311,12 @@ Section Gen.
   Lemma g_field_some rec var x : x <> VNone -> g_field rec var x = g_wrap var (g_items rec var x).
   Proof. intros H. unfold g_field. destruct x; try reflexivity. congruence. Qed.
 
-  Lemma run_obj : forall n cl o qn,
+  Lemma run_obj : forall n cl o qn xsi,
     wfr cl -> fits n cl o = true ->
     forall fuel, (5 * odepth o <= fuel)%nat ->
-    run c u ign fuel (CDataclass o qn false None) = Ok (bflat (gobj n qn o)).
+    run c u ign fuel (CDataclass o qn false xsi) = Ok (bflat (add_xsi_g xsi (gobj n qn o))).
   Proof.
-    induction n as [|n IH]; intros cl o qn Hwf Hfit fuel Hfuel; [discriminate|].
+    induction n as [|n IH]; intros cl o qn xsi Hwf Hfit fuel Hfuel; [discriminate|].
     destruct (fits_inv n cl o Hfit) as [fs [m [-> [Hm [Hnames [Hfa [Hfe Hft]]]]]]].
     destruct (wfr_inv cl Hwf) as [m' [Hm' [Hmc [Hwc Hnest]]]]. rewrite Hm in Hm'. inversion Hm'; subst m'. clear Hm'.
     assert (Hd : (1 <= odepth (VObj cl fs))%nat) by (cbn [odepth]; lia).
@@ -1292,15 +1364,21 @@ Section Gen.
             assert (Hobj : forall y, (odepth y <= odepth x)%nat -> fits_item (fits n) var y = true ->
                      forall f', (5 * odepth y + 2 <= f')%nat ->
                      run c u ign f' (CAnyType y var) = Ok (bflat (g_item (gobj n) var y))).
-            { intros y Hdy Hfy f' Hf'. destruct (fits_item_class _ var k y Htys Hfy) as [cl' [fs' [-> Hr]]].
-              assert (Hcl' : cl' = k).
-              { destruct n; [discriminate|]. cbn [Fits.fits] in Hr. apply andb_true_iff in Hr as [Hr _].
-                apply N.eqb_eq in Hr. exact Hr. }
-              subst cl'.
-              destruct f' as [|f1]; [lia|]. rewrite run_anytype_obj.
-              destruct f1 as [|f2]; [lia|]. rewrite (run_xsitype_exact f2 var k fs' Hk Htys Hn).
-              cbn [g_item]. apply (IH k (VObj k fs') (Some (v_qname var))); [|exact Hr|lia].
-              apply (Hnest _ var k Hine (or_introl eq_refl) Hcl). }
+            { intros y Hdy Hfy f' Hf'. destruct (fits_item_class _ var k y Htys Hfy) as [cl' [fs' [-> [[-> Hr]|[Hdok Hr]]]]].
+              - (* an instance of the declared class *)
+                destruct f' as [|f1]; [lia|]. rewrite run_anytype_obj.
+                destruct f1 as [|f2]; [lia|]. rewrite (run_xsitype_exact f2 var k fs' Hk Htys Hn).
+                cbn [g_item]. unfold xsi_for. rewrite Htys. cbn [existsb ptype_eqb]. rewrite N.eqb_refl. cbn [orb].
+                apply (IH k (VObj k fs') (Some (v_qname var)) None); [|exact Hr|lia].
+                apply (Hnest _ var k Hine (or_introl eq_refl) Hcl).
+              - (* an instance of a subclass: xsi:type *)
+                destruct (derived_ok_inv var k cl' Hdok) as [Hne [Hsub [mk [mkd [t [Hmk _]]]]]].
+                assert (Hmk' : u_meta u cl' <> None) by congruence.
+                destruct f' as [|f1]; [lia|]. rewrite run_anytype_obj.
+                destruct f1 as [|f2]; [lia|].
+                rewrite (run_xsitype_derived f2 var k cl' fs' Hk Htys Hcl Hn Hne Hsub Hmk').
+                cbn [g_item]. apply (IH cl' (VObj cl' fs') (Some (v_qname var)) (xsi_for var cl')); [|exact Hr|lia].
+                apply (wfr_sub cl m _ var k cl' Hwf Hm Hine (or_introl eq_refl) Hcl Hmk' Hne Hsub). }
             destruct Hsrc as [Hw|[f0 [t0 [l0 [Hf0 [_ [_ [El Hil]]]]]]]]; cbn [fst snd] in *.
             2:{ (* one item of a list field inside a sequence group *)
                 rewrite El in Hfv0. unfold Fits.fits_elem in Hfv0. rewrite Hf0, Htf in Hfv0.
@@ -1420,8 +1498,9 @@ Section Gen.
             * unfold qleaf_ok in Hft. apply andb_true_iff in Hft as [_ Hq]. destruct p as [| | | | | |q1| |]; try discriminate Hq.
               reflexivity.
             * apply andb_true_iff in Hft as [Hp _]. rewrite (encode_leaf t _ p Hp). reflexivity. }
-    cbn [gbind bflat app]. f_equal. f_equal. f_equal.
-    - symmetry. apply map_flat_map_l.
+    cbn [gbind add_xsi_g bflat app]. f_equal. f_equal. f_equal.
+    - rewrite map_app. f_equal; [symmetry; apply map_flat_map_l|].
+      destruct xsi as [[|ch q]|]; reflexivity.
     - f_equal. rewrite flat_map_flat_map. reflexivity.
   Qed.
   (* ---------------------------------------------------------------- the expected tree *)
@@ -1456,8 +1535,17 @@ Section Gen.
     end.
   Definition e_prim (var : xvar) (x : value) : XmlNs.enode :=
     EElem (Bind.split_qname (v_qname var)) [] (e_data (v_format var) x).
+  Definition xsi_attr_e (x : option qname) : list (XmlNs.qname * list atom) :=
+    match x with Some ((_ :: _) as q) => [(Bind.split_qname XSI_TYPE, [AQName (Bind.split_qname q)])] | _ => [] end.
+  Definition add_xsi_e (x : option qname) (e : XmlNs.enode) : XmlNs.enode :=
+    match e with EElem q ats ks => EElem q (ats ++ xsi_attr_e x) ks | EData a => EData a end.
+  Lemma add_xsi_e_none e : add_xsi_e None e = e.
+  Proof. destruct e; [reflexivity|]. cbn [add_xsi_e xsi_attr_e]. rewrite app_nil_r. reflexivity. Qed.
   Definition e_item (rec : option qname -> value -> XmlNs.enode) (var : xvar) (x : value) : XmlNs.enode :=
-    match x with VObj _ _ => rec (Some (v_qname var)) x | _ => e_prim var x end.
+    match x with
+    | VObj k' _ => add_xsi_e (xsi_for var k') (rec (Some (v_qname var)) x)
+    | _ => e_prim var x
+    end.
   Definition e_wrap (var : xvar) (items : list XmlNs.enode) : list XmlNs.enode :=
     match v_wrapper_qname var with
     | Some ((_ :: _) as w) => [EElem (Bind.split_qname w) [] items]
